@@ -11,7 +11,7 @@ import (
 func init() { scenarios["C02"] = scenarioC02 }
 
 var c02Contexts = []string{"body", "action", "invariant", "custom", "cleanup-of-body", "cleanup-of-action", "cleanup-of-custom", "goroutine"}
-var c02Positions = []string{"first-case", "after-k-passes", "after-k-skips", "every-case", "last-case", "before-skip", "data-dependent"}
+var c02Positions = []string{"first-case", "after-k-passes", "after-k-skips", "every-case", "last-case", "before-skip", "data-dependent", "then-skip-in-cleanup"}
 
 type c02Cell struct {
 	kind FailKind
@@ -29,6 +29,9 @@ var c02Cells = func() []c02Cell {
 				}
 				if p == 5 && (k.Fatal() || c == 2 || c == 4 || c == 5 || c == 6) {
 					continue // "signal, then Skip" needs a non-fatal signal in a context that may skip
+				}
+				if p == 7 && (!k.TMethod() || c == 7) {
+					continue // a later Skip (from a cleanup) superseding the unwinding: *T-method signals are sticky by design
 				}
 				out = append(out, c02Cell{k, c, p})
 			}
@@ -96,6 +99,13 @@ func scenarioC02(rc *RunCtx) {
 			cond = &Cond{Op: OpInvIdx, C: int64(k)}
 			fl.Checks = k + t.Int("c02.extra", 1, 6)
 		}
+	case 7: // the signal is followed by a Skip raised from a cleanup function registered earlier (it runs last)
+		cond = &Cond{Op: OpTrue}
+		if t.Chance("c02.pos7.idx", 50) {
+			cond = &Cond{Op: OpInvIdx, C: int64(k)}
+			fl.Checks = k + t.Int("c02.extra", 1, 6)
+		}
+		pre = append(pre, &Stmt{K: SCleanup, ID: 80, Body: []*Stmt{{K: SIf, Cond: cond, Body: []*Stmt{{K: SSkip, SKind: t.Pick("skip.kind", 3)}}}}})
 	case 6: // deterministic in the draws: the failing case is reproduced, minimized and replayed
 		cond = &Cond{Var: 0, Op: OpGE, C: int64(t.Int("c02.thr", 0, 9))}
 		fl.Checks = t.Int("c02.checks6", 1, 30)
